@@ -39,6 +39,7 @@ type Env interface {
 	Pedersen(t T, c *pcase)
 	OneColumnRefused(t T, c *pcase) string
 	AcceptsFull(t T, c *pcase) bool
+	ISNSoloProbe(t T, c *pcase, h int) bool
 	TassaAdmission(t T, c *pcase, verdict int, increasing bool) string
 }
 
